@@ -333,4 +333,13 @@ def R6_amount_accounting(run):
               "the swap loop no longer runs while amount_remaining > 0 && price != limit (found %s)" % sorted(conds), loc=fn.loc(), detail=", ".join(sorted(conds)))
 
 
-RULES = [R1_threshold_table, R3_limit_validation, R4_partial_fill, R5_target_clamp, R6_amount_accounting]
+def R7_amount_and_limit_wiring(run):
+    run.title("R7", "the trader's amount and per-pool price limit reach the engine unchanged: v2 exact-in charges `amount` when fully used else the transfer-fee-included swap input "
+                    "on the input mint (C16.R1 instances); each two-hop leg runs with its own pool, limit, direction and oracle state (C17.R1 instances)")
+    from rules.common import RuleProxy
+    from rules import C16, C17
+    C16.R1_swap_wiring(RuleProxy(run, "R7"))
+    C17.R1_legs(RuleProxy(run, "R7"))
+
+
+RULES = [R1_threshold_table, R3_limit_validation, R4_partial_fill, R5_target_clamp, R6_amount_accounting, R7_amount_and_limit_wiring]
